@@ -10,7 +10,6 @@
 use prio::codec::Encode;
 use prio::field::{Field128, Field64, FieldElement};
 use prio::flp::gadgets::{Mul, ParallelSum, ParallelSumGadget, ParallelSumMultithreaded};
-use prio::flp::types::{Histogram, MultihotCountVec, SumVec};
 use prio::flp::{Gadget, Type};
 use prio::vdaf::prio3::Prio3;
 use prio::vdaf::test_utils::TestVectorClient;
@@ -53,7 +52,7 @@ fn wire_poly(len: usize, st: &mut u64, p_hint: u128) -> Vec<Field128> {
 }
 
 /// Bare gadget: ParallelSumMultithreaded::eval_poly vs ParallelSum::eval_poly.
-fn gadget_case(run: &Run, pool: &rayon::ThreadPool, chunks: usize, calls: usize, n_logical: usize, max_exec: u64) {
+fn gadget_case(run: &Run, pool: &rayon::ThreadPool, chunks: usize, calls: usize, n_logical: usize, max_exec: u64, bound: u32) {
     let p = (1 + calls).next_power_of_two();
     let mut st = run.seed ^ fnv(format!("{chunks}/{calls}").as_bytes());
     let inp: Vec<Vec<Field128>> = (0..2 * chunks).map(|i| if i % 5 == 4 { vec![Field128::zero(); p] } else { wire_poly(p, &mut st, 0) }).collect();
@@ -63,7 +62,7 @@ fn gadget_case(run: &Run, pool: &rayon::ThreadPool, chunks: usize, calls: usize,
     serial.eval_poly(&mut want, &inp).unwrap();
     let mut traces: HashSet<Vec<(usize, bool)>> = HashSet::new();
     let mut bad: Option<(Vec<(usize, bool)>, String)> = None;
-    let stats = explore(u32::MAX, max_exec, |ch| {
+    let stats = explore(bound, max_exec, |ch| {
         // output buffer pre-filled with junk: the gadget must overwrite all of it
         let mut out = vec![Field128::from(0xDEADu128); 2 * p];
         let (res, trace) = with_oracle(pool, n_logical, ch, || catch(|| multi.eval_poly(&mut out, &inp).map_err(|e| e.to_string())));
@@ -102,17 +101,13 @@ fn gadget_case(run: &Run, pool: &rayon::ThreadPool, chunks: usize, calls: usize,
 /// Whole Prio3 type: multithreaded vs serial sharding (the only place eval_poly runs), then
 /// verification and aggregation of the multithreaded report by the multithreaded type.
 #[allow(clippy::too_many_arguments)]
-fn type_case<TS, TM>(run: &Run, pool: &rayon::ThreadPool, name: &str, ts: TS, tm: TM, alg: u32, meas: &[TS::Measurement], n_logical: usize, tape: &Tape, max_exec: u64)
+fn type_case<TS, TM>(run: &Run, pool: &rayon::ThreadPool, name: &str, serial: P3<TS>, multi: P3<TM>, jr: bool, meas: &[TS::Measurement], n_logical: usize, tape: &Tape, max_exec: u64, bound: u32)
 where
     TS: Type<Field = Field128> + Clone + Send + Sync + 'static,
     TM: Type<Field = Field128, Measurement = TS::Measurement, AggregateResult = TS::AggregateResult> + Clone + Send + Sync + 'static,
     TS::Measurement: Send + Sync,
     TS::AggregateResult: PartialEq + std::fmt::Debug,
 {
-    let na = 2u8;
-    let serial: P3<TS> = Prio3::new(na, 1, alg, ts.clone()).unwrap();
-    let multi: P3<TM> = Prio3::new(na, 1, alg, tm.clone()).unwrap();
-    let jr = ts.joint_rand_len() > 0;
     for (mi, m) in meas.iter().enumerate() {
         let ctx = b"c14".to_vec();
         let nonce: [u8; 16] = tape.array(1 + mi as u64);
@@ -125,7 +120,7 @@ where
         let _ = outs_s;
         let mut traces: HashSet<Vec<(usize, bool)>> = HashSet::new();
         let mut bad: Option<(Vec<(usize, bool)>, String)> = None;
-        let stats = explore(u32::MAX, max_exec, |ch| {
+        let stats = explore(bound, max_exec, |ch| {
             let (res, trace) = with_oracle(pool, n_logical, ch, || catch(|| multi.shard_with_random(&ctx, m, &nonce, &random).map_err(|e| e.to_string())));
             match res {
                 Ok(Ok((ps, sh))) => {
@@ -240,31 +235,56 @@ fn main() {
                 if chunks > 12 && (calls == 2 || calls == 7) {
                     continue;
                 }
-                gadget_case(&run, &pool, chunks, calls, n, max_exec);
+                gadget_case(&run, &pool, chunks, calls, n, max_exec, u32::MAX);
             }
         }
     }
+    // many chunks (more than any per-job minimum a pipeline might use): the number of steal patterns
+    // is astronomically large, so these are explored with a deviation bound (<= 2 steals, thorough 3)
+    let big_bound = if q { 2 } else { 3 };
+    for chunks in [33usize, 64, 65, 100, 129, 257] {
+        for &n in &[1usize, 2, 16] {
+            if q && chunks > 129 {
+                continue;
+            }
+            gadget_case(&run, &pool, chunks, 1, n, max_exec, big_bound);
+        }
+    }
+    run.note("deviation_bounded_cases", json!({"chunks": [33, 64, 65, 100, 129, 257], "max_steals": big_bound}));
     eprintln!("[{:.1}s] gadget", run.elapsed());
     let tapes = tape_alphabet(run.seed, 1);
     let tape = &tapes[3].1;
     for &n in &threads {
 
+        // the library's own constructors for the multithreaded variants vs their serial counterparts
         for (len, chunk) in [(3usize, 1usize), (4, 2), (9, 2), (5, 7)] {
-            let ts: SumVec<Field128, ParallelSum<Field128, Mul>> = SumVec::new(3, len, chunk).unwrap();
-            let tm: SumVec<Field128, ParallelSumMultithreaded<Field128, Mul>> = SumVec::new(3, len, chunk).unwrap();
+            let serial = Prio3::new_sum_vec(2, 3, len, chunk).unwrap();
+            let multi = Prio3::new_sum_vec_multithreaded(2, 3, len, chunk).unwrap();
             let meas: Vec<Vec<u128>> = vec![vec![0; len], vec![3; len], (0..len).map(|i| (i % 4) as u128).collect()];
-            type_case(&run, &pool, &format!("SumVec(max=3,len={len},chunk={chunk})"), ts, tm, 3, &meas[..if q { 2 } else { 3 }], n, tape, max_exec);
+            type_case(&run, &pool, &format!("SumVec(max=3,len={len},chunk={chunk})"), serial, multi, true, &meas[..if q { 2 } else { 3 }], n, tape, max_exec, u32::MAX);
         }
         for (len, chunk) in [(6usize, 3usize), (10, 2), (3, 5)] {
-            let ts: Histogram<Field128, ParallelSum<Field128, Mul>> = Histogram::new(len, chunk).unwrap();
-            let tm: Histogram<Field128, ParallelSumMultithreaded<Field128, Mul>> = Histogram::new(len, chunk).unwrap();
-            type_case(&run, &pool, &format!("Histogram(len={len},chunk={chunk})"), ts, tm, 4, &[0usize, len - 1], n, tape, max_exec);
+            let serial = Prio3::new_histogram(2, len, chunk).unwrap();
+            let multi = Prio3::new_histogram_multithreaded(2, len, chunk).unwrap();
+            type_case(&run, &pool, &format!("Histogram(len={len},chunk={chunk})"), serial, multi, true, &[0usize, len - 1], n, tape, max_exec, u32::MAX);
         }
         for (len, maxw, chunk) in [(5usize, 2usize, 2usize), (7, 3, 4)] {
-            let ts: MultihotCountVec<Field128, ParallelSum<Field128, Mul>> = MultihotCountVec::new(len, maxw, chunk).unwrap();
-            let tm: MultihotCountVec<Field128, ParallelSumMultithreaded<Field128, Mul>> = MultihotCountVec::new(len, maxw, chunk).unwrap();
+            let serial = Prio3::new_multihot_count_vec(2, len, maxw, chunk).unwrap();
+            let multi = Prio3::new_multihot_count_vec_multithreaded(2, len, maxw, chunk).unwrap();
             let meas: Vec<Vec<bool>> = vec![vec![false; len], (0..len).map(|i| i < maxw).collect()];
-            type_case(&run, &pool, &format!("MultihotCountVec(len={len},maxw={maxw},chunk={chunk})"), ts, tm, 5, &meas, n, tape, max_exec);
+            type_case(&run, &pool, &format!("MultihotCountVec(len={len},maxw={maxw},chunk={chunk})"), serial, multi, true, &meas, n, tape, max_exec, u32::MAX);
+        }
+        // long chunk lengths (many parallel chunks), deviation-bounded
+        if n == 1 || n == 16 {
+            for (len, chunk) in [(20usize, 70usize), (40, 130)] {
+                let serial = Prio3::new_sum_vec(2, 255, len, chunk).unwrap();
+                let multi = Prio3::new_sum_vec_multithreaded(2, 255, len, chunk).unwrap();
+                let meas: Vec<Vec<u128>> = vec![(0..len).map(|i| (i * 37 % 256) as u128).collect()];
+                type_case(&run, &pool, &format!("SumVec(max=255,len={len},chunk={chunk})"), serial, multi, true, &meas, n, tape, max_exec, big_bound);
+            }
+            let serial = Prio3::new_histogram(2, 300, 100).unwrap();
+            let multi = Prio3::new_histogram_multithreaded(2, 300, 100).unwrap();
+            type_case(&run, &pool, "Histogram(len=300,chunk=100)", serial, multi, true, &[17usize], n, tape, max_exec, big_bound);
         }
     }
     eprintln!("[{:.1}s] types", run.elapsed());
